@@ -278,7 +278,7 @@ pub fn run_c17(tier: Tier) -> i32 {
     let out = run_generated(
         "C17-upgrade",
         env_seed(),
-        tier.pick(1500, 30_000),
+        tier.pick(5000, 60_000),
         || {
             (crate::gen::history(&g), any::<bool>(), proptest::collection::vec(0u8..2, 3))
                 .prop_map(|(spec, in_place, bitmap_variant)| UpgradeCase { spec, in_place, bitmap_variant })
